@@ -345,12 +345,6 @@ package boltz
 //@   nosafety
 //@   modifies *
 
-//@ func (*systemEntityConstraint).checkOperation
-//@   props C07
-//@   errflow
-//@   nosafety
-//@   modifies *
-
 //@ func (*systemMutateContext).runPreCommitActions
 //@   props C07
 //@   errflow
